@@ -228,12 +228,29 @@ func (r *Runner) Do(i int) (*Mismatch, error) {
 			copy(arena[len(k):], v)
 			k, v = arena[:len(k)], arena[len(k):len(k)+len(v)]
 		}
-		if err := r.Eng.Put(k, v); err != nil {
+		err := r.Eng.Put(k, v)
+		if i%2 == 1 && v != nil {
+			// ... and that re-uses the buffer as soon as the call has returned
+			for j := range k {
+				k[j] ^= 0x5A
+			}
+			for j := range v {
+				v[j] ^= 0xA5
+			}
+		}
+		if err != nil {
 			r.WriteErrors++
 			return nil, fmt.Errorf("%w: put: %v", ErrWrite, err)
 		}
 	case "del":
-		if err := r.Eng.Delete(p.Keys[s.K]); err != nil {
+		// the key is handed over in a buffer of the caller that is overwritten
+		// right after the call
+		kb := append([]byte{}, p.Keys[s.K]...)
+		err := r.Eng.Delete(kb)
+		for j := range kb {
+			kb[j] ^= 0x5A
+		}
+		if err != nil {
 			r.WriteErrors++
 			return nil, fmt.Errorf("%w: delete: %v", ErrWrite, err)
 		}
